@@ -4,3 +4,6 @@ open LhasaV.Props.C18
 #print axioms safe_keeps_printable
 #print axioms listing_printable
 #print axioms print_banners_printable
+#print axioms test_output_printable
+#print axioms extract_output_printable
+#print axioms stderr_printable
